@@ -9,7 +9,8 @@ C03 (progress) and the termination half of C02 for PM stage 2c (multi-column con
 * `page_progress_partial`: a non-blank page finishes the document or hands over a strictly later position;
 * `paginate_bounded_partial`: `make_all_pages` never needs more than `2·size + 2` pages (the fuel of the model
   never runs out) and produces at most `2·size` pages.
-With spanning children page progress is false (`Witness/C01Col.lean`: a page that shows nothing new).
+With spanning children page progress was false before the repair b24b457 (a page that showed nothing new; now
+`Witness.C01Col.group_resumed_span_once`); the hypothesis stays as explained in `Props/C01Col.lean`.
 -/
 import WpModel.Lemmas.ColSegPages
 
@@ -157,7 +158,7 @@ theorem paginate_bounded_partial (d : CDoc) (hN : PMC.NoFixedHeight d.root) (hW 
     { brk := none, page := some (PMC.boxPageStart d.root) } (PMC.firstRight d) (by omega)
   exact ⟨h1, fun pages hp => by have := h2 pages hp; omega⟩
 
-/-! Non-vacuity: `C01Col.exDoc`-like document (size 17): 3 pages, positions 0 → 6 → 15 → end. -/
+/-! Non-vacuity: `C01Col.exDoc`-like document (size 19): 3 pages, positions 0 → 5 → 14 → end. -/
 def exSt : PStyle :=
   { mt := 0, mb := 0, pt := 0, pb := 0, bt := 0, bb := 0, height := none, minH := 0, maxH := none,
     brkBefore := .auto, brkAfter := .auto, brkInside := .auto, clone := false, page := "", orphans := 1, widows := 1,
@@ -166,19 +167,19 @@ def exSt : PStyle :=
 def exDoc : CDoc :=
   { pageH := 40, rootLtr := true,
     root := .block 9 { exSt with isRoot := true } [.block 8 exSt
-      [.para 1 3 10 exSt,
+      [.para 1 2 10 exSt,
        .columns 4 { exSt with mt := 5 } { count := 2, balance := true, ltr := true, width := 192 } [false, false]
          [.para 2 6 10 exSt, .para 3 2 10 { exSt with mt := 4 }],
        .para 5 2 10 exSt]] }
 
-example : PMC.NoFixedHeight exDoc.root ∧ PMC.WellFormed exDoc.root ∧ NoSpan exDoc.root ∧ sizeBox exDoc.root = 20 := by
+example : PMC.NoFixedHeight exDoc.root ∧ PMC.WellFormed exDoc.root ∧ NoSpan exDoc.root ∧ sizeBox exDoc.root = 19 := by
   refine ⟨?_, ?_, ?_, by decide⟩ <;>
   simp [exDoc, exSt, PMC.NoFixedHeight, PMC.NoFixedHeightList, PMC.WellFormed, PMC.WellFormedList, NoSpan, NoSpanList,
     NoSpanFlags]
 
 example : (match paginateCol exDoc 42 with
     | .ok ps => ps.map (fun (p : CPage) => PMC.pos exDoc.root p.resume)
-    | _ => []) = [6, 15, 0] := by
+    | _ => []) = [5, 14, 0] := by
   decide +kernel
 
 end Wp.C03Col
